@@ -16,6 +16,7 @@ LEVEL = 'exploration'
 KNOWN = {}
 
 DEPTH = 3
+QUICK_LAST = 4     # quick tier: commands sampled per state at the last level (levels 1 and 2 are always exhaustive)
 
 
 def _fixed_inits():
@@ -38,12 +39,12 @@ def _fixed_inits():
 
 
 def build_jobs(tier, seed):
-    """[(init, scope, depth, exact)]"""
+    """[(init, scope, depth, exact, sample_last, seed)]; sample_last: commands tried per state at the last level (None = all)"""
     from bounded import c18_world as W
     rnd = random.Random(seed * 7919 + 18)
     inits = _fixed_inits()
     if tier == 'quick':
-        inits += [W.random_init(rnd) for _ in range(37)]
+        inits += [W.random_init(rnd) for _ in range(5)]
         exact = False
     else:
         # every two-scope combination of merge.tool x diff.guitool (81), every attributes combination x location
@@ -56,27 +57,28 @@ def build_jobs(tier, seed):
                         i['repo'].update({'merge.tool': mr, 'diff.guitool': dr})
                         i['global'].update({'merge.tool': mg, 'diff.guitool': dg})
                         inits.append(i)
-        for ar in names:
-            for ag in names:
-                for loc in W.LOCS:
-                    i = W.random_init(rnd)
-                    i['attrs'] = {'repo': ar, 'global': ag}
-                    i['loc'] = loc
-                    inits.append(i)
+        for a, ar in enumerate(names):
+            for b, ag in enumerate(names):
+                i = W.random_init(rnd)
+                i['attrs'] = {'repo': ar, 'global': ag}
+                i['loc'] = W.LOCS[(a + b) % 3]      # every global variant meets every location
+                inits.append(i)
         for pr in W.PROMPTS:
             for pg in W.PROMPTS:
                 i = W.random_init(rnd)
                 i['repo'].update({'mergetool.prompt': pr, 'difftool.prompt': pg})
                 i['global'].update({'mergetool.prompt': pg, 'difftool.prompt': pr})
                 inits.append(i)
-        inits += [W.random_init(rnd) for _ in range(40)]
+        inits += [W.random_init(rnd) for _ in range(35)]
         exact = True
-    return [(i, s, DEPTH, exact) for i in inits for s in (None, 'global')]
+    return [(i, s, DEPTH, exact, QUICK_LAST if tier == 'quick' else None, seed * 1009 + n)
+            for n, i in enumerate(inits) for s in (None, 'global')]
 
 
 def _explore(job):
     """all command sequences up to `depth` from one initial configuration in one scope, as a graph over world states"""
-    init, scope, depth, exact = job
+    init, scope, depth, exact, sample_last, seed = job
+    rnd = random.Random(seed)
     from bounded import c18_world as W
     world = W.World(init)
     fails = {}          # kind -> (text, seq)
@@ -101,7 +103,14 @@ def _explore(job):
             nreach = {}
             for sk in frontier:
                 obs, path = states[sk]
-                for cmd in W.COMMANDS:
+                cmds = W.COMMANDS
+                if sample_last is not None and d == depth - 1 and d > 0:
+                    # the commands that produced this state are always re-run (idempotency pairs), the others are sampled
+                    again = {c for (s_, c), t_ in edges.items() if t_ == sk and c.startswith('enable:')}
+                    rest = [c for c in W.COMMANDS if c not in again]
+                    pick = again | set(rnd.sample(rest, min(sample_last, len(rest))))
+                    cmds = [c for c in W.COMMANDS if c in pick]
+                for cmd in cmds:
                     world.restore((obs['files'], obs['dirs']))
                     exc = world.run(cmd, scope)
                     after = world.observe()
@@ -135,6 +144,8 @@ def _explore(job):
             if W.semantic_key(once) != W.semantic_key(twice):
                 fail('not-idempotent', 'nbdime %s%s run a second time changes the configuration again: %s'
                      % (cmd, ' --' + scope if scope else '', W.describe_diff(once, twice)), states[sk][1] + [cmd, cmd])
+        if sample_last is None and npaths != sum(len(W.COMMANDS) ** k for k in range(1, depth + 1)):
+            raise CheckerDefect('state graph does not represent every sequence: %d' % npaths)
         label = W.init_label(init)
         for (sk, cmd) in edges:
             keys.append(hash((label, scope, sk, cmd)))
@@ -226,8 +237,9 @@ def run_bounded(res):
         'tool-not-registered-after-enable, still-routed-after-disable; per pair: not-idempotent (enable;enable vs enable on parsed config of '
         'every scope and bytes of every other file). Distinct case = (initial configuration, scope, state, command).'
         % (len(_fixed_inits()),
-           '37 seeded random ones' if res.tier == 'quick' else 'all 81 two-scope merge.tool x diff.guitool combinations, all %d attributes x location '
-           'combinations, all 9 prompt combinations (other dimensions seeded random) and 40 seeded random ones' % (len(W.ATTRS) ** 2 * 3),
+           '5 seeded random ones' if res.tier == 'quick' else 'all 81 two-scope merge.tool x diff.guitool combinations, all %d repo x global attributes '
+           'combinations (locations cycled so that every global variant meets every location), 9 prompt combinations (other dimensions '
+           'seeded random) and 35 seeded random ones' % (len(W.ATTRS) ** 2),
            sorted(W.ATTRS), W.LOCS, len(W.COMMANDS), DEPTH,
            'parsed config of each scope + bytes of all other user files (quick tier)' if res.tier == 'quick' else 'exact bytes of every user-owned file'))
     res.assumptions.append('bounded: only the stated configurations, commands and depth are explored')
